@@ -213,6 +213,25 @@ def _gen_floordiv(rng, D, P, tier):
 op('floordiv:uu', _gen_floordiv, lambda a: a[0] // a[1], None, tags=('arith', 'no-trunc'))
 
 
+def _gen_floordiv_regular(rng, D, P, tier):
+    # x // y with a non-vanishing denominator everywhere (plain series division, every truncation is defined); some
+    # directions badly scaled: |y0| small against the higher coefficients, or large against them
+    x = rand_coeffs(rng, (D, P), -2, 2)
+    y = rand_coeffs(rng, (D, P), -2, 2)
+    for p in range(P):
+        kind = rng.choice(['ordinary', 'ordinary', 'small-y0', 'huge-tail'])
+        y[0, p] = rng.choice([-1, 1]) * dyadic(rng, 0.5, 2.0)
+        if kind == 'small-y0':
+            y[0, p] *= 2.0 ** -13
+            y[1:, p] *= 2.0 ** 16
+        elif kind == 'huge-tail':
+            y[1:, p] *= 2.0 ** 30
+    return [U(x), U(y)]
+
+
+op('floordiv:regular', _gen_floordiv_regular, lambda a: a[0] // a[1], lambda z: z[0] / z[1], tags=('arith',))
+
+
 def _gen_powuu(rng, D, P, tier):
     s = _shape(rng, tier)
     x = rand_coeffs(rng, (D, P) + s, -1, 1)
@@ -338,6 +357,18 @@ op('lu', lambda rng, D, P, t: [U(gen_square(rng, D, P, rng.randint(1, 3)))],
    lambda a: algopy.lu(a[0]), lambda z: scipy.linalg.lu(z[0]), tags=('linalg', 'factor'))
 op('eigh', lambda rng, D, P, t: [U(gen_square(rng, D, P, rng.randint(1, 3), 'sym'))],
    lambda a: algopy.eigh(a[0]), lambda z: np.linalg.eigh(z[0]), tags=('linalg', 'factor'))
+def _gen_eigh_mixed(rng, D, P, tier):
+    # symmetric matrices whose base point has an exactly repeated eigenvalue in ONE direction only
+    n = rng.randint(2, 3)
+    x = gen_square(rng, D, P, n, 'sym')
+    p = rng.randrange(P)
+    lam = [2.0, 2.0, 3.5][:n] if rng.random() < 0.5 else [-1.0, 0.5, 0.5][:n] if n == 3 else [1.5, 1.5]
+    x[0, p] = np.diag(np.array(sorted(lam)))      # exactly representable: the repeated pair is exact
+    return [U(x)]
+
+
+# eigenvectors of a repeated eigenvalue are fixed by the higher coefficients: Q_0 legitimately depends on D and is not NumPy's choice
+op('eigh:mixed', _gen_eigh_mixed, lambda a: algopy.eigh(a[0]), None, tags=('linalg', 'factor', 'no-trunc'))
 op('symvec', lambda rng, D, P, t: [U(gen_square(rng, D, P, rng.randint(1, 3), 'spd'))],
    lambda a: algopy.symvec(a[0]), None, tags=('shape',))
 op('vecsym', lambda rng, D, P, t: [U(rand_coeffs(rng, (D, P, rng.choice([1, 3, 6])), -2, 2))],
